@@ -242,9 +242,10 @@ Definition store_refresh (st : store_id) (ttl : N) (a : addr) (k : key) (w : wor
         end
     end in
   if negb ok then (w1, false) else
+  let w1g := ghost (GRefresh st a k ttl) w1 in
   let '(tid, w2) :=
-    if ttl =? TTL_FOREVER then (None, w1)
-    else let '(t, w') := call_later (ttl * usec_per_sec) (HExpired st a k) w1 in (Some t, w') in
+    if ttl =? TTL_FOREVER then (None, w1g)
+    else let '(t, w') := call_later (ttl * usec_per_sec) (HExpired st a k) w1g in (Some t, w') in
   (* the listener may have changed other parts of the world, but never this store *)
   let s2 := touch a (get_store st w2) in
   (put_store st (aset N.eqb a (adel key_eqb k (inner a s2) ++ [(k, tid)]) s2) w2, true).
@@ -273,7 +274,7 @@ Definition store_expired (st : store_id) (a : addr) (k : key) (w : world) : worl
   let d0 := inner a s0 in
   match aget key_eqb k d0 with
   | None => put_store st s0 w
-  | Some _ => store_callback st k a (put_store st (aset N.eqb a (adel key_eqb k d0) s0) w)
+  | Some _ => ghost (GExpire st a k) (store_callback st k a (put_store st (aset N.eqb a (adel key_eqb k d0) s0) w))
   end.
 
 Definition store_keys (s : store) : list key := flat_map (fun p => map fst (snd p)) s.
